@@ -50,6 +50,43 @@ func c18AccessorNameAgreement(c *Ctx) {
 		return
 	}
 	var tplFuncs []string
+	// template variables declared once with a single command
+	tplVars := map[string]*parse.CommandNode{}
+	var collect func(n parse.Node)
+	collect = func(n parse.Node) {
+		switch x := n.(type) {
+		case *parse.ListNode:
+			if x == nil {
+				return
+			}
+			for _, y := range x.Nodes {
+				collect(y)
+			}
+		case *parse.ActionNode:
+			if x.Pipe != nil && len(x.Pipe.Decl) == 1 && len(x.Pipe.Cmds) == 1 && !x.Pipe.IsAssign {
+				name := x.Pipe.Decl[0].Ident[0]
+				if _, dup := tplVars[name]; dup {
+					tplVars[name] = nil
+				} else {
+					tplVars[name] = x.Pipe.Cmds[0]
+				}
+			}
+		case *parse.IfNode:
+			collect(x.List)
+			collect(x.ElseList)
+		case *parse.RangeNode:
+			collect(x.List)
+			collect(x.ElseList)
+		case *parse.WithNode:
+			collect(x.List)
+			collect(x.ElseList)
+		}
+	}
+	for _, t := range trees {
+		if t.Root != nil {
+			collect(t.Root)
+		}
+	}
 	var walk func(n parse.Node)
 	walk = func(n parse.Node) {
 		switch x := n.(type) {
@@ -74,6 +111,12 @@ func c18AccessorNameAgreement(c *Ctx) {
 					continue
 				}
 				cmd := a3.Pipe.Cmds[0]
+				// `{{ $accessor := ucFirst $object.Name }} … {{ $accessor }}`: read the variable's definition
+				if len(cmd.Args) == 1 {
+					if v, ok := cmd.Args[0].(*parse.VariableNode); ok && len(v.Ident) == 1 && tplVars[v.Ident[0]] != nil {
+						cmd = tplVars[v.Ident[0]]
+					}
+				}
 				if len(cmd.Args) == 2 {
 					if id, ok := cmd.Args[0].(*parse.IdentifierNode); ok {
 						tplFuncs = append(tplFuncs, id.Ident)
